@@ -47,17 +47,28 @@ def events_from_harness(hid, toks, res):
 # ------------------------------------------------------------------ CLI binding
 
 HALF_BLANK = (1, 3)
+GZ_SAME_NAME = (1, 2, 3)
 
 
 def make_images(scratch):
     """image files per kind; every surface has a distinct title and a file $.ID naming it."""
     def surf(tag, n=400):
-        img = mkdisc.surface_dfs(n, zlib.crc32(tag.encode()) & 0xFFFF, title=tag.encode(), entries=[mkdisc.entry("ID", length=len(tag) + 1, start=2)])
+        # (FAR holds the same tag beyond the first 4 KiB, where neither the sector cache nor a stdio buffer filled while the image was
+        # identified can answer for the file the drive really reads from)
+        img = mkdisc.surface_dfs(n, zlib.crc32(tag.encode()) & 0xFFFF, title=tag.encode(),
+                                 entries=[mkdisc.entry("FAR", length=len(tag) + 1, start=30), mkdisc.entry("ID", length=len(tag) + 1, start=2)])
         mkdisc.put(img, 2, tag.encode() + b"\r")
+        mkdisc.put(img, 30, tag.encode() + b"\r")
         return img
     paths = {}
     for i in range(5):
-        paths[(1, i)] = mkdisc.write(os.path.join(scratch, "one%d.ssd" % i), bytes(surf("I%dS0" % i)))
+        if i in GZ_SAME_NAME:
+            # compressed, and all with the same base name (in different directories)
+            import gzip
+            os.makedirs(os.path.join(scratch, "gz%d" % i), exist_ok=True)
+            paths[(1, i)] = mkdisc.write(os.path.join(scratch, "gz%d" % i, "same.ssd.gz"), gzip.compress(bytes(surf("I%dS0" % i))))
+        else:
+            paths[(1, i)] = mkdisc.write(os.path.join(scratch, "one%d.ssd" % i), bytes(surf("I%dS0" % i)))
         if i in HALF_BLANK:
             # a one-sided disc in a two-sided image: side 1 was never formatted (0xE5 fill); it is still a surface of the image and
             # takes its drive number (80 tracks, so that only one geometry can hold side 0's file system)
@@ -100,7 +111,7 @@ def parse_config(stderr, names):
     return mp, unf
 
 
-def cli_history(dfs, paths, toks, scratch, hook_runs=None):
+def cli_history(dfs, paths, toks, scratch, hook_runs=None, env=None):
     """Run the history's prefixes through dfs --show-config; returns events incl. read observations."""
     ev = []
     argv = []
@@ -121,7 +132,7 @@ def cli_history(dfs, paths, toks, scratch, hook_runs=None):
         names[path] = nimg
         kinds.append(k)
         argv += ["--file", path]
-        o = common.run([dfs] + argv + ["--show-config", "help"], timeout=60)
+        o = common.run([dfs] + argv + ["--show-config", "help"], timeout=60, env=env)
         ok = o.ok_alphabet() and o.rc == 0
         mp, unf = parse_config(o.err, names)
         if k == 2 and nimg in HALF_BLANK:
@@ -141,15 +152,18 @@ def cli_history(dfs, paths, toks, scratch, hook_runs=None):
     maxd = max(occupied) if occupied else 0
     targets = sorted(set(list(range(0, min(maxd, 12) + 2)) + [d for d in occupied if occupied[d][1] in (0, 1, 2, 5, 510) and kinds[occupied[d][0]] == 3][:8]))
     for d in targets:
-        for form in ("arg", "opt", "colon"):
+        for form in ("arg", "opt", "colon", "far"):
             if form == "arg":
-                o = common.run([dfs] + argv + ["cat", str(d)], timeout=60)
+                o = common.run([dfs] + argv + ["cat", str(d)], timeout=60, env=env)
                 m = re.match(rb"^(I\d+S\d+)\s", o.out)
             elif form == "opt":
-                o = common.run([dfs] + argv + ["--drive", str(d), "type", "ID"], timeout=60)
+                o = common.run([dfs] + argv + ["--drive", str(d), "type", "ID"], timeout=60, env=env)
+                m = re.match(rb"^(I\d+S\d+)\n", o.out)
+            elif form == "far":
+                o = common.run([dfs] + argv + ["type", ":%d.$.FAR" % d], timeout=60, env=env)
                 m = re.match(rb"^(I\d+S\d+)\n", o.out)
             else:
-                o = common.run([dfs] + argv + ["type", ":%d.$.ID" % d], timeout=60)
+                o = common.run([dfs] + argv + ["type", ":%d.$.ID" % d], timeout=60, env=env)
                 m = re.match(rb"^(I\d+S\d+)\n", o.out)
             if o.rc == 0 and m:
                 mm = re.match(rb"I(\d+)S(\d+)", m.group(1))
@@ -243,7 +257,8 @@ def run(chk, tier, seed):
             hr = []
             sub = os.path.join(scratch, "cli%d" % i)
             os.makedirs(sub, exist_ok=True)
-            return cli_history(dfs, paths, k.split(), sub, hook_runs=hr), hr
+            # (every second history with TMPDIR pointing at a directory of its own)
+            return cli_history(dfs, paths, k.split(), sub, hook_runs=hr, env=({"TMPDIR": sub} if i % 2 == 0 else None)), hr
         both = common.pmap(do, list(enumerate(chosen)))
         cli_ev = [x for x, _ in both]
         hook_runs = [r_ for _, hr in both for r_ in hr]
